@@ -40,6 +40,7 @@ type astSyscalls struct {
 	All   bool      `json:"all"`
 	Nums  []int     `json:"nums"`
 	Names []astName `json:"names"`
+	Big   bool      `json:"big"` // a number was written that no mask bit stands for (it may not even fit TLC's integers)
 }
 
 type astRule struct {
@@ -614,6 +615,22 @@ func (e *ruleEnv) instantiate(c map[string]interface{}) []*ruleText {
 		a, b := num("a"), num("b")
 		rt.ast.Syscalls = astSyscalls{All: false, Nums: []int{a, b}, Names: []astName{}}
 		rt.args = append(rt.args, "-S", fmt.Sprintf("%d,%d", a, b))
+		return []*ruleText{rt}
+	case "sysbig":
+		rt := &ruleText{ast: newAst(), c07: false, cls: "sysbig"}
+		rt.ast.List, rt.ast.Action = lists[r.Intn(2)], actions[r.Intn(2)]
+		rt.args = []string{"-a", rt.ast.Action + "," + rt.ast.List}
+		rt.ast.Syscalls = astSyscalls{All: false, Nums: []int{}, Names: []astName{}, Big: true}
+		switch str("with") {
+		case "before":
+			rt.ast.Syscalls.Nums = []int{2}
+			rt.args = append(rt.args, "-S", "2,"+str("v"))
+		case "after":
+			rt.ast.Syscalls.Nums = []int{3}
+			rt.args = append(rt.args, "-S", str("v"), "-S", "3")
+		default:
+			rt.args = append(rt.args, "-S", str("v"))
+		}
 		return []*ruleText{rt}
 	}
 	return nil
